@@ -4,33 +4,62 @@
    PARTIAL.  Proved: the round trip for EVERY document of a fragment, at any nesting depth and
    width - null, true, false, every integer from -2^63 to 2^64-1 in decimal (read back as the
    same integer: unsigned when it is not negative, as strconv.ParseUint is tried first), strings
-   over the printable ASCII characters other than the quote and the backslash, arrays, objects
-   with such keys, printed compactly - under every configuration with arrays, objects and double
+   over ALL printable ASCII characters, the quote and the backslash written with their escapes
+   (c17_json_escaped_roundtrip_partial; and the plain spelling of texts that need none), arrays,
+   objects with such keys, printed compactly - under every configuration with arrays, objects and double
    quotes enabled (the data read back is what parse.Value returns: an empty array or object
    reads as nil, objects are sorted, a repeated key keeps its last value); the decimal text of
    every int64 / uint64 reads back through the ParseInt / ParseUint models
    (c17_decimal_text_reads_back); each disabled syntax is taken literally; the rejected flag
-   combination; single-quoted strings of ANY content.  NOT proved: floats, escape sequences,
-   non-ASCII text and free white-space layout; they are decided by the correspondence run,
+   combination; single-quoted strings of ANY content.  NOT proved: floats, the other escape
+   sequences (\n, \u.... and the like), non-ASCII text and free white-space layout; they are decided by the correspondence run,
    where the model parser and the implementation are compared on every short text over the
    syntax alphabet and on random JSON documents, and the model's result is compared with the
    data the document was printed from. *)
-From Ucfg Require Import Base ParseInt Consts Field Tree F64 ParseValue ProofsParse ProofsDec ProofsJson.
+From Ucfg Require Import Base ParseInt Consts Field Tree F64 ParseValue ProofsParse ProofsDec ProofsJson ProofsJsonEsc.
 
-(* parse.Value(print v) = data v, for every document v of the fragment *)
+(* parse.Value(print v) = data v, for every document v of the fragment whose texts and keys are
+   printable ASCII - quotes and backslashes included, spelled with their escapes ([esc]) *)
+Theorem c17_json_escaped_roundtrip_partial : forall cfg v,
+  c_array cfg = true -> c_dq cfg = true -> c_object cfg = true ->
+  wf pstr v = true ->
+  parse_value_with_config cfg (print esc v) = POk (data v).
+Proof. exact json_escaped_roundtrip. Qed.
+Print Assumptions c17_json_escaped_roundtrip_partial.
+
+(* the string scanner alone: every printable-ASCII text is read back from its escaped spelling,
+   whatever follows the closing quote *)
+Theorem c17_escaped_string_reads_back : forall body rest,
+  pstr body = true ->
+  parse_dquote (String """"%char (esc body +++ String """"%char rest)) = POk (body, rest).
+Proof. exact parse_dquote_escaped. Qed.
+Print Assumptions c17_escaped_string_reads_back.
+
+Theorem c17_json_escaped_example :
+  let v := JObj [("k""ey\", JArr [JStr "say ""hi"" \o/"; JStr "\\"; JInt (-7)]); ("a", JStr """")] in
+  wf pstr v = true /\
+  print esc v = "{""k\""ey\\"":[""say \""hi\"" \\o/"",""\\\\"",-7],""a"":""\""""}" /\
+  parse_value_with_config DefaultConfig (print esc v) = POk (data v).
+Proof. exact json_escaped_example. Qed.
+Print Assumptions c17_json_escaped_example.
+
+(* the same for the plain spelling of texts that need no escapes *)
 Theorem c17_json_fragment_roundtrip_partial : forall cfg v,
   c_array cfg = true -> c_dq cfg = true -> c_object cfg = true ->
-  wf v = true ->
-  parse_value_with_config cfg (print v) = POk (data v).
-Proof. exact json_fragment_roundtrip. Qed.
+  wf safe_str v = true ->
+  parse_value_with_config cfg (print (fun s => s) v) = POk (data v).
+Proof. exact json_fragment_roundtrip_plain. Qed.
 Print Assumptions c17_json_fragment_roundtrip_partial.
 
-(* ... and as a member of any larger text: followed by nothing or by a stop character *)
-Theorem c17_json_fragment_value_anywhere_partial : forall cfg,
-  c_array cfg = true -> c_object cfg = true -> c_dq cfg = true ->
-  forall v, wf v = true -> forall f, (jsize v < f)%nat ->
+(* ... and as a member of any larger text: followed by nothing or by a stop character (for any
+   spelling [sp] of the texts that the string scanner reads back) *)
+Theorem c17_json_fragment_value_anywhere_partial : forall sp okstr,
+  (forall body rest, okstr body = true ->
+     parse_dquote (String """"%char (sp body +++ String """"%char rest)) = POk (body, rest)) ->
+  forall cfg, c_array cfg = true -> c_object cfg = true -> c_dq cfg = true ->
+  forall v, wf okstr v = true -> forall f, (jsize v < f)%nat ->
   forall stop rest, stop_ok stop -> ok_rest stop rest ->
-  parse_value cfg f (print v +++ rest) stop = POk (data v, rest).
+  parse_value cfg f (print sp v +++ rest) stop = POk (data v, rest).
 Proof. exact parse_print. Qed.
 Print Assumptions c17_json_fragment_value_anywhere_partial.
 
@@ -43,9 +72,9 @@ Print Assumptions c17_decimal_text_reads_back.
 Theorem c17_json_fragment_example :
   let v := JObj [("b", JArr [JNull; JBool true; JArr []; JObj [("x y", JStr "a{b}[c],:'d")]; JInt 18446744073709551615; JInt (-9223372036854775808)]);
                  ("a", JStr ""); ("n", JInt 0)] in
-  wf v = true /\
-  print v = "{""b"":[null,true,[],{""x y"":""a{b}[c],:'d""},18446744073709551615,-9223372036854775808],""a"":"""",""n"":0}" /\
-  parse_value_with_config DefaultConfig (print v) = POk (data v) /\
+  wf safe_str v = true /\
+  print (fun s => s) v = "{""b"":[null,true,[],{""x y"":""a{b}[c],:'d""},18446744073709551615,-9223372036854775808],""a"":"""",""n"":0}" /\
+  parse_value_with_config DefaultConfig (print (fun s => s) v) = POk (data v) /\
   data v = PObj [("a", PStr ""); ("b", PArr [PNil; PBool true; PNil; PObj [("x y", PStr "a{b}[c],:'d")]; PUint 18446744073709551615; PInt (-9223372036854775808)]); ("n", PUint 0)].
 Proof. exact json_fragment_example. Qed.
 Print Assumptions c17_json_fragment_example.
